@@ -58,6 +58,7 @@ func cmdSweep(args []string) int {
 	limit := fs.Int("limit", 0, "max variants (0 = all)")
 	only := fs.String("only", "", "substring filter on file path")
 	stride := fs.Int("stride", 1, "take every n-th variant")
+	opsF := fs.String("ops", "", "comma-separated operator names to run (default all)")
 	fs.Parse(args)
 	vs, srcs, err := genVariants(*repo, *mode)
 	if err != nil {
@@ -67,6 +68,9 @@ func cmdSweep(args []string) int {
 	var sel []variant
 	for i, v := range vs {
 		if *only != "" && !strings.Contains(v.File, *only) {
+			continue
+		}
+		if *opsF != "" && !strings.Contains(","+*opsF+",", ","+v.Op+",") {
 			continue
 		}
 		if i%*stride != 0 {
@@ -165,6 +169,7 @@ func cmdVariant(args []string) int {
 	verif := fs.String("verif", "/verif", "")
 	target := fs.String("target", "", "")
 	content := fs.String("content", "", "")
+	onlyProp := fs.String("p", "", "run only this property")
 	fs.Parse(args)
 	b, err := os.ReadFile(*content)
 	if err != nil {
@@ -189,6 +194,9 @@ func cmdVariant(args []string) int {
 	}
 	sort.Strings(ids)
 	for _, id := range ids {
+		if *onlyProp != "" && id != *onlyProp {
+			continue
+		}
 		m := registry[id]
 		c := &Ctx{P: p, Prop: m.ID, Tier: "quick"}
 		func() {
@@ -415,7 +423,86 @@ func (g *vgen) equiv(n ast.Node, stack []ast.Node) {
 				g.add("invert-if", x, "if !("+g.text(x.Cond)+") "+g.text(eb)+" else "+g.text(x.Body))
 			}
 		}
+	case *ast.BlockStmt:
+		g.blockEquiv(x)
+	case *ast.FuncDecl:
+		// shift every following line: a comment block before the function
+		if x.Doc == nil {
+			g.add("shift-lines", x, "// refactoring note\n//\n// (line numbers below this point move)\n"+g.text(x))
+		}
 	}
+}
+
+// blockEquiv: statement-level behaviour-preserving rewrites inside one block.
+func (g *vgen) blockEquiv(b *ast.BlockStmt) {
+	for i, st := range b.List {
+		// (1) hoist a pure selector-chain argument of a single-call statement into a temporary
+		var call *ast.CallExpr
+		nCalls := 0
+		ast.Inspect(st, func(n ast.Node) bool {
+			switch c := n.(type) {
+			case *ast.FuncLit:
+				return false
+			case *ast.CallExpr:
+				nCalls++
+				call = c
+			}
+			return true
+		})
+		_, isExpr := st.(*ast.ExprStmt)
+		_, isAssign := st.(*ast.AssignStmt)
+		if nCalls == 1 && (isExpr || isAssign) {
+			for _, a := range call.Args {
+				se, ok := a.(*ast.SelectorExpr)
+				if !ok || !pureExpr(se) {
+					continue
+				}
+				if tv, ok := g.pk.TypesInfo.Types[a]; !ok || tv.Type == nil || tv.IsType() || !tv.IsValue() {
+					continue
+				}
+				if _, isSel := se.X.(*ast.SelectorExpr); !isSel {
+					continue // hoist only chains of depth ≥ 2 (x.y.z)
+				}
+				s, e := g.fset.Position(st.Pos()).Offset, g.fset.Position(st.End()).Offset
+				as, ae := g.fset.Position(a.Pos()).Offset, g.fset.Position(a.End()).Offset
+				stText := string(g.src[s:as]) + "hoistedArg" + string(g.src[ae:e])
+				repl := "hoistedArg := " + g.text(a) + "\n" + stText
+				g.out = append(g.out, variant{Op: "hoist-arg", File: g.file, Line: g.fset.Position(st.Pos()).Line, Func: g.fn, Old: g.text(a), New: repl, s: s, e: e})
+				break
+			}
+		}
+		// (2) swap two adjacent independent simple assignments
+		if i+1 < len(b.List) {
+			a1, ok1 := st.(*ast.AssignStmt)
+			a2, ok2 := b.List[i+1].(*ast.AssignStmt)
+			if ok1 && ok2 && a1.Tok == token.ASSIGN && a2.Tok == token.ASSIGN && len(a1.Lhs) == 1 && len(a2.Lhs) == 1 &&
+				simpleRHS(a1.Rhs[0]) && simpleRHS(a2.Rhs[0]) && pureExpr(a1.Lhs[0]) && pureExpr(a2.Lhs[0]) {
+				l1, l2 := g.text(a1.Lhs[0]), g.text(a2.Lhs[0])
+				r1, r2 := g.text(a1.Rhs[0]), g.text(a2.Rhs[0])
+				indep := l1 != l2 && !strings.Contains(r2, l1) && !strings.Contains(r1, l2) && !strings.HasPrefix(l2, l1) && !strings.HasPrefix(l1, l2)
+				if indep {
+					s, e := g.fset.Position(a1.Pos()).Offset, g.fset.Position(a2.End()).Offset
+					repl := g.text(a2) + "\n" + g.text(a1)
+					g.out = append(g.out, variant{Op: "swap-stmts", File: g.file, Line: g.fset.Position(a1.Pos()).Line, Func: g.fn, Old: l1 + " / " + l2, New: repl, s: s, e: e})
+				}
+			}
+		}
+	}
+}
+
+// simpleRHS: a constant, nil, identifier, or make/zero-length literal — no calls that could observe order
+func simpleRHS(e ast.Expr) bool {
+	switch x := e.(type) {
+	case *ast.BasicLit, *ast.Ident:
+		return true
+	case *ast.CallExpr:
+		if id, ok := x.Fun.(*ast.Ident); ok && id.Name == "make" {
+			return true
+		}
+	case *ast.SelectorExpr:
+		return pureExpr(x)
+	}
+	return false
 }
 
 // renames: rename each local variable (declared with := or var inside the function).
@@ -425,7 +512,7 @@ func (g *vgen) renames(fd *ast.FuncDecl) {
 	}
 	info := g.pk.TypesInfo
 	objs := map[types.Object][]*ast.Ident{}
-	ast.Inspect(fd.Body, func(n ast.Node) bool {
+	ast.Inspect(fd, func(n ast.Node) bool {
 		id, ok := n.(*ast.Ident)
 		if !ok {
 			return true
@@ -437,8 +524,8 @@ func (g *vgen) renames(fd *ast.FuncDecl) {
 			o = u
 		}
 		if v, ok := o.(*types.Var); ok && !v.IsField() && v.Pkg() != nil && v.Parent() != nil && v.Parent() != v.Pkg().Scope() {
-			// declared inside this function body?
-			if v.Pos() >= fd.Body.Pos() && v.Pos() <= fd.Body.End() {
+			// declared inside this function (body, parameter list or receiver)?
+			if v.Pos() >= fd.Pos() && v.Pos() <= fd.End() {
 				objs[o] = append(objs[o], id)
 			}
 		}
@@ -564,4 +651,117 @@ func (g *vgen) fault(n ast.Node, stack []ast.Node) {
 			}
 		}
 	}
+}
+
+// SweepSummary is what the thorough tier records in evidence.
+type SweepSummary struct {
+	Mode      string   `json:"mode"`
+	Generated int      `json:"variants_generated_in_anchor_files"`
+	Run       int      `json:"variants_run"`
+	TypeCheck int      `json:"type_check"`
+	Silent    int      `json:"silent"`
+	Alarmed   int      `json:"raise_this_property"`
+	Examples  []string `json:"examples,omitempty"`
+}
+
+// sweepForProperty runs a sampled sweep restricted to the property's anchor files and
+// to that property's own rules (thorough tier; informational, never changes the exit code).
+func sweepForProperty(propID, mode, repo, verif string, files []string, max, jobs int) *SweepSummary {
+	vs, srcs, err := genVariants(repo, mode)
+	if err != nil {
+		return &SweepSummary{Mode: mode}
+	}
+	inAnchor := func(f string) bool {
+		for _, a := range files {
+			if strings.HasSuffix(f, "/"+a) {
+				return true
+			}
+		}
+		return false
+	}
+	var pool []variant
+	for _, v := range vs {
+		if inAnchor(v.File) {
+			pool = append(pool, v)
+		}
+	}
+	sum := &SweepSummary{Mode: mode, Generated: len(pool)}
+	if len(pool) == 0 {
+		return sum
+	}
+	stride := 1
+	if len(pool) > max {
+		stride = (len(pool) + max - 1) / max
+	}
+	seed := seedFromEnv()
+	var sel []variant
+	for i := seed % stride; i < len(pool); i += stride {
+		sel = append(sel, pool[i])
+	}
+	sum.Run = len(sel)
+	tmp, _ := os.MkdirTemp("", "tl-psweep")
+	defer os.RemoveAll(tmp)
+	exe, _ := os.Executable()
+	res := make([]variantResult, len(sel))
+	sem := make(chan struct{}, jobs)
+	var wg sync.WaitGroup
+	for i, v := range sel {
+		wg.Add(1)
+		go func(i int, v variant) {
+			defer wg.Done()
+			sem <- struct{}{}
+			defer func() { <-sem }()
+			src := srcs[v.File]
+			mut := append(append(append([]byte{}, src[:v.s]...), v.New...), src[v.e:]...)
+			mf := filepath.Join(tmp, fmt.Sprintf("%d.go", v.ID))
+			os.WriteFile(mf, mut, 0o644)
+			cmd := exec.Command(exe, "variant", "-repo", repo, "-verif", verif, "-target", v.File, "-content", mf, "-p", propID)
+			var ob bytes.Buffer
+			cmd.Stdout = &ob
+			err := cmd.Run()
+			os.Remove(mf)
+			r := variantResult{variant: v}
+			if err == nil {
+				var cr struct {
+					Fired []string `json:"fired"`
+				}
+				if json.Unmarshal(ob.Bytes(), &cr) == nil {
+					r.Loads = true
+					r.Fired = cr.Fired
+				}
+			}
+			res[i] = r
+		}(i, v)
+	}
+	wg.Wait()
+	for _, r := range res {
+		if !r.Loads {
+			continue
+		}
+		sum.TypeCheck++
+		if len(r.Fired) == 0 {
+			sum.Silent++
+			if mode == "fault" && len(sum.Examples) < 6 {
+				f := r.File
+				if i := strings.LastIndex(f, "/"); i >= 0 {
+					f = f[i+1:]
+				}
+				sum.Examples = append(sum.Examples, fmt.Sprintf("survivor: %s %s:%d %s %q → %q", r.Op, f, r.Line, r.Func, r.Old, trunc(r.New, 60)))
+			}
+		} else {
+			sum.Alarmed++
+			if len(sum.Examples) < 6 && mode == "equiv" {
+				sum.Examples = append(sum.Examples, fmt.Sprintf("ALARM on equivalent variant: %s %s:%d %s %q fired %v", r.Op, r.File, r.Line, r.Func, r.Old, r.Fired))
+			}
+		}
+	}
+	return sum
+}
+
+func trunc(s string, n int) string {
+	s = strings.Join(strings.Fields(s), " ")
+	if len(s) > n {
+		return s[:n] + "…"
+	}
+	return s
 }
